@@ -1,1 +1,418 @@
-fn main() { eprintln!("not built yet"); std::process::exit(2); }
+//! vh-asm-arm64: drives the real `dora_asm::arm64::AssemblerArm64` (C08).
+//!
+//!   list                       -> JSON on stdout: callable methods with their signatures (from build.rs)
+//!   run  req=<file.tsv>        -> one request per line `idx \t method \t operand...`; this shard handles the
+//!                                 lines with idx % nshards == shard and writes <out>/res_<shard>.tsv:
+//!                                 `idx \t ok|refused|skip \t w0,w1,.. \t panic location \t message class`
+//!   imm  nrand=<n>             -> immediate-encoder / predicate families, <out>/imm_<shard>.tsv
+//!
+//! Operand text: registers 0..30, 31 = REG_ZERO, 32 = REG_SP; NEON registers 0..31; numbers in decimal;
+//! Shift/Extend/Cond by variant name; MemOperand `base:offset`; Label = signed distance in instructions from
+//! the start of the emitted method to the label (<= 0: label bound before the call, > 0: bound afterwards and
+//! resolved by `finalize`).
+use std::io::{BufRead, Write};
+use std::os::unix::fs::FileExt;
+
+use dora_asm::Label;
+use dora_asm::arm64::*;
+use vhc::{Args, Reporter, Rng, catch, msg_class};
+
+pub struct Cx {
+    pub a: AssemblerArm64,
+    start: usize,
+    fwd: Option<(Label, i64)>,
+}
+
+impl Cx {
+    fn new() -> Cx {
+        Cx { a: AssemblerArm64::new(), start: 0, fwd: None }
+    }
+    fn num<T: std::str::FromStr>(&mut self, s: &str) -> Result<T, String> {
+        s.parse::<T>().map_err(|_| format!("bad-number:{}", s))
+    }
+    fn reg(&mut self, s: &str) -> Result<Register, String> {
+        let v: u32 = self.num(s)?;
+        match v {
+            0..=30 => Ok(Register::new(v as u8)),
+            31 => Ok(REG_ZERO),
+            32 => Ok(REG_SP),
+            _ => Err(format!("bad-register:{}", v)),
+        }
+    }
+    fn neon(&mut self, s: &str) -> Result<NeonRegister, String> {
+        let v: u32 = self.num(s)?;
+        if v < 32 { Ok(NeonRegister::new(v as u8)) } else { Err(format!("bad-neon-register:{}", v)) }
+    }
+    fn shift(&mut self, s: &str) -> Result<Shift, String> {
+        Ok(match s {
+            "LSL" => Shift::LSL,
+            "LSR" => Shift::LSR,
+            "ASR" => Shift::ASR,
+            "ROR" => Shift::ROR,
+            _ => return Err(format!("bad-shift:{}", s)),
+        })
+    }
+    fn extend(&mut self, s: &str) -> Result<Extend, String> {
+        Ok(match s {
+            "UXTB" => Extend::UXTB,
+            "UXTH" => Extend::UXTH,
+            "LSL" => Extend::LSL,
+            "UXTW" => Extend::UXTW,
+            "UXTX" => Extend::UXTX,
+            "SXTB" => Extend::SXTB,
+            "SXTH" => Extend::SXTH,
+            "SXTW" => Extend::SXTW,
+            "SXTX" => Extend::SXTX,
+            _ => return Err(format!("bad-extend:{}", s)),
+        })
+    }
+    fn cond(&mut self, s: &str) -> Result<Cond, String> {
+        Ok(match s {
+            "EQ" => Cond::EQ,
+            "NE" => Cond::NE,
+            "CS" => Cond::CS,
+            "HS" => Cond::HS,
+            "CC" => Cond::CC,
+            "LO" => Cond::LO,
+            "MI" => Cond::MI,
+            "PL" => Cond::PL,
+            "VS" => Cond::VS,
+            "VC" => Cond::VC,
+            "HI" => Cond::HI,
+            "LS" => Cond::LS,
+            "GE" => Cond::GE,
+            "LT" => Cond::LT,
+            "GT" => Cond::GT,
+            "LE" => Cond::LE,
+            _ => return Err(format!("bad-cond:{}", s)),
+        })
+    }
+    fn mem(&mut self, s: &str) -> Result<MemOperand, String> {
+        let (b, o) = s.split_once(':').ok_or_else(|| format!("bad-mem:{}", s))?;
+        let base = self.reg(b)?;
+        let off: i64 = self.num(o)?;
+        Ok(MemOperand::new(base, off))
+    }
+    fn fill(&mut self, n: u64) {
+        if n <= 4096 {
+            for _ in 0..n {
+                self.a.nop();
+            }
+        } else {
+            for _ in 0..n / 4 {
+                self.a.emit_u128(0);
+            }
+            for _ in 0..n % 4 {
+                self.a.emit_u32(0);
+            }
+        }
+    }
+    fn label(&mut self, s: &str) -> Result<Label, String> {
+        let d: i64 = self.num(s)?;
+        if d.unsigned_abs() > (1 << 26) {
+            return Err("label-too-far-for-harness".into());
+        }
+        if d <= 0 {
+            let l = self.a.create_and_bind_label();
+            self.fill((-d) as u64);
+            Ok(l)
+        } else {
+            let l = self.a.create_label();
+            self.fwd = Some((l, d));
+            Ok(l)
+        }
+    }
+    fn begin(&mut self) {
+        self.start = self.a.position();
+    }
+}
+
+include!(concat!(env!("OUT_DIR"), "/dispatch.rs"));
+
+enum Res {
+    Ok(Vec<u32>),
+    Skip(String),
+}
+
+fn run_one(name: &str, ops: &[&str]) -> Res {
+    let mut c = Cx::new();
+    if let Err(e) = dispatch(&mut c, name, ops) {
+        return Res::Skip(e);
+    }
+    let start = c.start;
+    let end = c.a.position();
+    if let Some((l, d)) = c.fwd.take() {
+        let target = start + 4 * d as usize;
+        if target < end {
+            return Res::Skip("label-inside-emitted-code".into());
+        }
+        if d <= 4096 {
+            while c.a.position() < target {
+                c.a.nop();
+            }
+            c.a.bind_label(l);
+        } else {
+            // as if (target - end) / 4 further instructions had been emitted
+            c.a.set_position(target);
+            c.a.bind_label(l);
+            c.a.set_position_end();
+        }
+    }
+    let code = c.a.finalize(4).code();
+    let mut words = vec![];
+    let mut p = start;
+    while p + 4 <= end && p + 4 <= code.len() {
+        words.push(u32::from_le_bytes([code[p], code[p + 1], code[p + 2], code[p + 3]]));
+        p += 4;
+    }
+    Res::Ok(words)
+}
+
+fn mode_run(args: &Args) {
+    let path = args.get("req").expect("req=<file>").to_string();
+    let mut rep = Reporter::new(args);
+    let f = std::io::BufReader::new(std::fs::File::open(&path).expect("request file"));
+    let mut out = std::io::BufWriter::new(
+        std::fs::File::create(args.out.join(format!("res_{}.tsv", args.shard))).unwrap(),
+    );
+    let skip: Option<u64> = args.get("skip_upto").map(|s| s.parse().unwrap());
+    let cur = std::fs::File::create(args.out.join(format!("cur_{}.idx", args.shard))).unwrap();
+    let (mut n_ok, mut n_ref, mut n_skip) = (0u64, 0u64, 0u64);
+    for line in f.lines() {
+        let line = line.unwrap();
+        let mut it = line.split('\t');
+        let Some(idx) = it.next().and_then(|s| s.parse::<u64>().ok()) else { continue };
+        if idx % args.nshards != args.shard {
+            continue;
+        }
+        if let Some(o) = args.only {
+            if o != idx {
+                continue;
+            }
+        }
+        if let Some(s) = skip {
+            if idx <= s {
+                continue;
+            }
+        }
+        let Some(name) = it.next() else { continue };
+        let ops: Vec<&str> = it.collect();
+        // current request index, rewritten in place (the parent attributes a child death to it)
+        let _ = cur.write_all_at(format!("{:<20}", idx).as_bytes(), 0);
+        match catch(|| run_one(name, &ops)) {
+            Ok(Res::Ok(words)) => {
+                n_ok += 1;
+                let w: Vec<String> = words.iter().map(|w| format!("{:08x}", w)).collect();
+                writeln!(out, "{}\tok\t{}\t\t", idx, w.join(",")).unwrap();
+            }
+            Ok(Res::Skip(why)) => {
+                n_skip += 1;
+                writeln!(out, "{}\tskip\t\t\t{}", idx, why).unwrap();
+            }
+            Err(p) => {
+                n_ref += 1;
+                writeln!(out, "{}\trefused\t\t{}\t{}", idx, p.loc, msg_class(&p.msg).replace('\t', " ")).unwrap();
+            }
+        }
+    }
+    out.flush().unwrap();
+    rep.count("harness_ok", n_ok);
+    rep.count("harness_refused", n_ref);
+    rep.count("harness_skip", n_skip);
+    rep.finish();
+}
+
+// ------------------------------------------------------------------------------------------------
+// immediate encoders and predicates
+
+fn runs_patterns(bits: u32, out: &mut Vec<u64>) {
+    // all values of `bits` bits made of at most three runs of equal bits
+    let mask = if bits == 64 { !0u64 } else { (1u64 << bits) - 1 };
+    let ones = |lo: u32, hi: u32| -> u64 {
+        // bits lo..hi (exclusive) set
+        if hi <= lo {
+            0
+        } else {
+            let w = hi - lo;
+            (if w == 64 { !0u64 } else { (1u64 << w) - 1 }) << lo
+        }
+    };
+    out.push(0);
+    out.push(mask);
+    for i in 1..bits {
+        out.push(ones(0, i));
+        out.push(ones(i, bits));
+        for j in i + 1..bits {
+            out.push(ones(i, j));
+            out.push(mask & !ones(i, j));
+        }
+    }
+}
+
+fn valid_bitmasks(out: &mut Vec<u64>) {
+    let mut e = 2u32;
+    while e <= 64 {
+        for ones in 1..e {
+            let elem = (1u64 << ones) - 1;
+            for rot in 0..e {
+                let emask = if e == 64 { !0u64 } else { (1u64 << e) - 1 };
+                let r = if rot == 0 { elem } else { ((elem >> rot) | (elem << (e - rot))) & emask };
+                let mut v = 0u64;
+                let mut k = 0;
+                while k < 64 {
+                    v |= r << k;
+                    k += e;
+                }
+                out.push(v);
+            }
+        }
+        e *= 2;
+    }
+}
+
+fn random_value(r: &mut Rng) -> u64 {
+    match r.below(8) {
+        0 => r.next(),
+        1 => {
+            // few runs
+            let mut v = 0u64;
+            let n = 1 + r.below(6);
+            for _ in 0..n {
+                let a = r.below(65) as u32;
+                let m = if a == 64 { !0u64 } else { (1u64 << a) - 1 };
+                v ^= m;
+            }
+            v
+        }
+        2 => {
+            // replicated random element
+            let e = 2u32 << r.below(5); // 2..32
+            let elem = r.next() & ((1u64 << e) - 1);
+            let mut v = 0u64;
+            let mut k = 0;
+            while k < 64 {
+                v |= elem << k;
+                k += e;
+            }
+            v
+        }
+        3 => r.next() & 0xFFFF,
+        4 => (r.next() & 0xFFFF) << (16 * r.below(4)),
+        5 => !((r.next() & 0xFFFF) << (16 * r.below(4))),
+        6 => r.next() & 0xFFFF_FFFF,
+        _ => {
+            // halfwords from {0, ffff, random}
+            let mut v = 0u64;
+            for h in 0..4 {
+                let hw = match r.below(3) {
+                    0 => 0,
+                    1 => 0xFFFF,
+                    _ => r.next() & 0xFFFF,
+                };
+                v |= hw << (16 * h);
+            }
+            v
+        }
+    }
+}
+
+fn logical_field(v: u64, w32: bool) -> String {
+    let r = catch(|| {
+        let mut a = AssemblerArm64::new();
+        if w32 {
+            a.and_imm_w(Register::new(0), Register::new(1), v);
+        } else {
+            a.and_imm(Register::new(0), Register::new(1), v);
+        }
+        let code = a.finalize(4).code();
+        u32::from_le_bytes([code[0], code[1], code[2], code[3]])
+    });
+    match r {
+        Ok(w) => format!("{:x}", w),
+        Err(_) => "-".into(),
+    }
+}
+
+fn pred<T: std::fmt::Display>(f: impl FnOnce() -> T) -> String {
+    match catch(f) {
+        Ok(v) => v.to_string(),
+        Err(_) => "!".into(),
+    }
+}
+
+fn mode_imm(args: &Args) {
+    let mut rep = Reporter::new(args);
+    let mut out = std::io::BufWriter::new(
+        std::fs::File::create(args.out.join(format!("imm_{}.tsv", args.shard))).unwrap(),
+    );
+    let nrand: u64 = args.get("nrand").map(|s| s.parse().unwrap()).unwrap_or(100000);
+    let flips: bool = args.get("flips").map(|s| s == "1").unwrap_or(true);
+    let mut fixed: Vec<u64> = vec![];
+    runs_patterns(64, &mut fixed);
+    runs_patterns(32, &mut fixed);
+    let mut valid = vec![];
+    valid_bitmasks(&mut valid);
+    for v in &valid {
+        fixed.push(*v);
+        fixed.push(*v & 0xFFFF_FFFF);
+    }
+    if flips {
+        for v in &valid {
+            for b in 0..64 {
+                fixed.push(*v ^ (1u64 << b));
+            }
+        }
+    }
+    let mut n = 0u64;
+    let mut emit = |v: u64, out: &mut std::io::BufWriter<std::fs::File>| {
+        writeln!(
+            out,
+            "{:x}\t{}\t{}\t{}\t{}\t{}\t{}\t{}\t{}\t{}\t{}\t{}\t{}",
+            v,
+            logical_field(v, false),
+            logical_field(v, true),
+            pred(|| fits_movz(v, 64) as u8),
+            pred(|| fits_movz(v, 32) as u8),
+            pred(|| fits_movn(v, 64) as u8),
+            pred(|| fits_movn(v, 32) as u8),
+            pred(|| shift_movz(v)),
+            pred(|| shift_movn(v)),
+            pred(|| count_empty_half_words(v, 64)),
+            pred(|| count_empty_half_words(v, 32)),
+            pred(|| fits_addsub_imm(v as u32) as u8),
+            pred(|| fits_ldst_unscaled(v as u32 as i32) as u8),
+        )
+        .unwrap();
+        n += 1;
+    };
+    for chunk in args.indices() {
+        for (k, v) in fixed.iter().enumerate() {
+            if k as u64 % args.count == chunk {
+                emit(*v, &mut out);
+            }
+        }
+        let mut r = Rng::new(args.seed, 0xC08, chunk);
+        for _ in 0..nrand / args.count.max(1) {
+            let v = random_value(&mut r);
+            emit(v, &mut out);
+        }
+    }
+    out.flush().unwrap();
+    rep.count("imm_values", n);
+    rep.finish();
+}
+
+fn main() {
+    let args = Args::parse();
+    vhc::install_panic_hook();
+    match args.mode.as_str() {
+        "list" => {
+            let m: Vec<_> = METHODS.iter().map(|(n, s)| vhc::json!({"name": n, "sig": s})).collect();
+            let s: Vec<_> = SKIPPED.iter().map(|(n, s)| vhc::json!({"name": n, "why": s})).collect();
+            println!("{}", vhc::json!({"methods": m, "skipped": s}));
+        }
+        "run" => mode_run(&args),
+        "imm" => mode_imm(&args),
+        m => panic!("unknown mode {}", m),
+    }
+}
